@@ -6,4 +6,5 @@ Local Open Scope Z_scope.
 Inductive slice :=
 | SlFull                      (* full_extent: the whole dimension, static extent preserved *)
 | SlIndex (k : Z)             (* an index: the dimension is dropped *)
-| SlPair (first last : Z).    (* pair-like (first, last) of run-time values: last - first elements, dynamic extent *)
+| SlPair (first last : Z)     (* pair-like (first, last) of run-time values: last - first elements, dynamic extent *)
+| SlCPair (first last : Z).   (* pair of integral constants: last - first elements, STATIC extent last - first *)
